@@ -263,7 +263,8 @@ class ChangeField(BaseModelFieldMutation):
                                  parent_model=model)
 
         new_field_attrs = self.field_attrs.copy()
-        new_related_model = new_field_attrs.pop('related_model', None)
+        new_related_model = new_field_attrs.pop('related_model',
+                                                old_field_sig.related_model)
 
         new_field = create_field(project_sig=project_sig,
                                  field_name=field_name,
